@@ -1131,7 +1131,7 @@ func defaultWeights(prop string) map[string]int {
 	case "C05":
 		w = map[string]int{"create": 24, "update": 10, "delete": 14, "link": 36, "rc": 16}
 	case "C06":
-		w = map[string]int{"create": 32, "update": 20, "delete": 26, "link": 14, "rc": 6, "deleteWhere": 2}
+		w = map[string]int{"create": 32, "update": 20, "delete": 26, "link": 14, "rc": 6, "deleteWhere": 5}
 	case "conc":
 		w = map[string]int{"create": 36, "update": 30, "delete": 12, "link": 16, "rc": 4, "deleteWhere": 2}
 	case "C07", "C08":
